@@ -23,6 +23,9 @@ def run(ctx, rep):
     rep.rule('R10.3', 'local-slot opcodes only under scope == Local; global-slot opcodes only under scope == Global')
     rep.rule('R10.4', 'pool immutability: value types that can enter the constant pool are never mutated in place')
     rep.rule('R10.5', 'constants are de-duplicated by (type, value) only')
+    rep.rule('R10.9', 'what counts as the same constant: equality compares tags first, immediates by the whole word, heap values by content')
+    from rules import shared as _sh, c15 as _c15
+    _sh.check_object_eq(ctx.facts(), rep, 'R10.9', _c15.heap_types(ctx))
     rep.rule('R10.8', 'an expression statement is compiled the same way whatever kind of variable it assigns: its code always ends in Pop')
     from rules import c11 as _c11
     _c11.check_stmt_expr_pop(csa_run.analyse(ctx), rep, 'R10.8')
